@@ -284,7 +284,7 @@ pub fn run(part: &mut Part) {
             cseeds.extend(gc_spill_seeds().into_iter().step_by(if q { 3 } else { 1 }));
             let cprofiles = vec![prof("GC seeds x A_write (crash)", cseeds, a_write(), if TINY { if q { 2 } else { 3 } } else { 1 }), light_seeds_prof(a_write(), if q { 1 } else { 2 }, q)];
             let ccfgs: Vec<CrashCfg> = seeds_hash.iter().map(|(hs, _)| CrashCfg {
-                property: "C04", oracle: Oracle::C04, policy: PolicyCfg::Default, hash_seed: *hs, power_loss: false, second_crash: true, cont_struct: 1, cont_other: if q { 0 } else { 1 }, initial_open: false,
+                property: "C04", oracle: Oracle::C04, policy: PolicyCfg::Default, hash_seed: *hs, power_loss: false, second_crash: true, cont_struct: 1, cont_other: if q { 0 } else { 1 }, initial_open: false, pre_cut_last_file: None,
             }).collect();
             run_crash(part, cprofiles, ccfgs);
             part.rule = "SEQ part: every op sequence of the stated depth after seeds in which a queue is empty/idle while its files are rolled over and deleted; model-free monitor per queue incarnation: every assigned position exceeds every position appended or truncated-to before, automatic positions continue exactly from it, also after Reopen and in the final Reopen + append on every queue. CRASH part: every crash point of every history from the GC seeds (both orders of GC position entries, second crash in recovery): after recovery every queue created by a completed call exists and its last position is not below the highest position appended or truncated-to by completed calls; continuation appends conform".into();
@@ -319,7 +319,7 @@ pub fn run(part: &mut Part) {
             calpha.push(Op::app(QA, Pos::Auto, Sz::XL));
             let cprofiles = vec![prof("multi-file seeds x (A_write + XL), crash + recovery", cseeds, calpha.clone(), if TINY { if q { 2 } else { 3 } } else { 1 }), light_seeds_prof(calpha, if q { 1 } else { 2 }, q)];
             let ccfgs: Vec<CrashCfg> = [PolicyCfg::Default, PolicyCfg::DoNothing].iter().map(|pol| CrashCfg {
-                property: "C06", oracle: Oracle::C06, policy: *pol, hash_seed: 0, power_loss: false, second_crash: false, cont_struct: 0, cont_other: 0, initial_open: false,
+                property: "C06", oracle: Oracle::C06, policy: *pol, hash_seed: 0, power_loss: false, second_crash: false, cont_struct: 0, cont_other: 0, initial_open: false, pre_cut_last_file: None,
             }).collect();
             run_crash(part, cprofiles, ccfgs);
             part.rule = "every op sequence of the stated depth after multi-file seeds; after every truncate / delete_queue / open the real directory listing is compared with the harness's own attribution (file that received the first byte each retained record's append call wrote, from frame events) ; distinct_nontrivial = distinct (file list, oldest attributed file, file at call begin, call kind). Open after a crash: every crash point of the last op of every history of the crash profile (flush-per-op and DoNothing policies), recovery, then the same listing check against the records that were recovered".into();
@@ -423,6 +423,7 @@ pub fn run(part: &mut Part) {
                 cont_struct: 2,
                 cont_other: 1,
                 initial_open: true,
+                pre_cut_last_file: None,
             }).collect();
             run_crash(part, profiles, cfgs.clone());
             {
@@ -469,10 +470,34 @@ pub fn run(part: &mut Part) {
                         cont_struct: 0,
                         cont_other: 0,
                         initial_open: false,
+                        pre_cut_last_file: None,
                     });
                 }
             }
             run_crash(part, profiles, cfgs);
+            // start from a directory whose newest WAL file was created but never sized (the state a
+            // crash between create_new and set_len leaves): the whole alphabet, every policy pair and
+            // both loss models from there. (Other lengths of the newest file cannot be produced by the
+            // crate under either loss model and are outside what C03 quantifies over - see DESIGN 9.)
+            {
+                let b0 = part.bounds.clone();
+                let mut pseeds = vec![seed_ab(), seed_two_files(), seed_three_files()];
+                pseeds.extend(cursor_seeds(&[3], &[0, 8]));
+                let mut palpha = a_write();
+                palpha.push(Op::Persist(true));
+                palpha.push(Op::app(QA, Pos::Auto, Sz::XL));
+                let pprofiles = vec![prof("seed closed, newest file emptied (created, not yet sized), reopened x (A_write + Persist + XL)", pseeds, palpha, if TINY { if q { 2 } else { 3 } } else { 1 })];
+                let mut pcfgs = vec![];
+                for cut in [0usize] {
+                    for policy in [PolicyCfg::AlwaysFsync, PolicyCfg::DoNothing, PolicyCfg::AlwaysFlush] {
+                        for power_loss in [false, true] {
+                            pcfgs.push(CrashCfg { property: "C03", oracle: Oracle::C03, policy, hash_seed: 0, power_loss, second_crash: false, cont_struct: 0, cont_other: 0, initial_open: false, pre_cut_last_file: Some(cut) });
+                        }
+                    }
+                }
+                run_crash(part, pprofiles, pcfgs);
+                part.bounds = json!({"from_empty_directory": b0, "from_a_directory_whose_newest_file_was_created_but_not_sized": part.bounds.clone()});
+            }
             part.rule = "6 (thorough: 9) policy configurations x 2 loss models x every history of the bound (explicit persist ops and a roll-over append in the alphabet) x every crash point inside the last op; process crash: image = what reached the OS; power loss: image = durable prefix of directory ops x per-file prefix of unsynced effects; oracle: recovered state is S_j (or a partial truncate/delete of S_j) for some j >= the last persisted point. distinct_nontrivial = distinct (persisted point, crashed op, policy, matched state)".into();
             part.assumptions.push("power-loss model: file data durable up to its last fdatasync, unsynced effects survive as any prefix per file; directory operations durable as a prefix after the last directory fsync".into());
         }
@@ -506,7 +531,7 @@ pub fn run(part: &mut Part) {
                 second_crash: false,
                 cont_struct: 0,
                 cont_other: 0,
-                initial_open: false,
+                initial_open: false, pre_cut_last_file: None,
             }];
             let dmg_profiles = vec![prof("cursor seeds x batch alphabet (damage)", { let mut s = vec![seed_ab()]; s.extend(cursor_seeds(&[0, 3], &[0, 7, 8, 34])); s }, profiles[0].alphabet.clone(), if TINY { if q { 1 } else { 2 } } else { 1 })];
             run_crash(part, profiles, cfgs);
@@ -596,8 +621,9 @@ pub fn run(part: &mut Part) {
             let profiles = vec![prof("1-3 file seeds x (A_write + XL)", seeds, alpha.clone(), if TINY { if q { 2 } else { 3 } } else if q { 1 } else { 2 }), light_seeds_prof(alpha, 1, q)];
             let descr: Vec<_> = profiles.iter().map(|p| p.describe()).collect();
             let stats = explore(&profiles, part.seed, |env, leaf| {
-                crate::fault::fault_leaf(env, leaf, false);
-                crate::fault::fault_leaf(env, leaf, true);
+                for variant in 0..=4u8 {
+                    crate::fault::fault_leaf(env, leaf, variant);
+                }
             });
             part.stats.merge(stats);
             part.bounds = json!({"image_profiles": descr, "variants": ["clean image", "one byte of the second block damaged (block skipping on the path)"],
@@ -787,7 +813,7 @@ pub fn replay(path: &str) -> i32 {
                 _ => Oracle::C02,
             };
             let prop: &'static str = match property.as_str() { "C03" => "C03", "C12" => "C12", "C04" => "C04", "C06" => "C06", _ => "C02" };
-            let cfg = CrashCfg { property: prop, oracle, policy, hash_seed, power_loss: case["power_loss"].as_bool().unwrap_or(false), second_crash: oracle == Oracle::C02, cont_struct: if matches!(oracle, Oracle::C02 | Oracle::C04) { 2 } else { 0 }, cont_other: if matches!(oracle, Oracle::C02 | Oracle::C04) { 2 } else { 0 }, initial_open: true };
+            let cfg = CrashCfg { property: prop, oracle, policy, hash_seed, power_loss: case["power_loss"].as_bool().unwrap_or(false), second_crash: oracle == Oracle::C02, cont_struct: if matches!(oracle, Oracle::C02 | Oracle::C04) { 2 } else { 0 }, cont_other: if matches!(oracle, Oracle::C02 | Oracle::C04) { 2 } else { 0 }, initial_open: true, pre_cut_last_file: None };
             crash_leaf(&mut env, &leaf, &cfg);
         }
         "damage" => match property.as_str() {
@@ -830,7 +856,7 @@ pub fn replay(path: &str) -> i32 {
             let dir = env.scratch2.path.clone();
             crate::damage::c10_eval(&mut env, &dir, &img, || case.clone());
         }
-        "fault" => crate::fault::fault_leaf(&mut env, &leaf, case["damaged_block"].as_bool().unwrap_or(false)),
+        "fault" => crate::fault::fault_leaf(&mut env, &leaf, case["image_variant"].as_u64().map(|v| v as u8).unwrap_or(if case["damaged_block"].as_bool().unwrap_or(false) { 1 } else { 0 })),
         "c14" => c14_leaf(&mut env, &leaf),
         "c18" => c18_leaf(&mut env, &leaf),
         "c18-crash" => crate::crash::c18_crash_leaf(&mut env, &leaf),
